@@ -195,6 +195,7 @@ def c_target(name):
     simple = {"()": "TUnit", "bool": "TBool", "AtomicBool": "TAtomicBool", "char": "TChar", "String": "TString",
               "PathBuf": "TPathBuf", "f32": "(TFloat false)", "f64": "(TFloat true)",
               "syn::Expr": "TExpr", "syn::Path": "TPath", "syn::Ident": "TIdent", "IdentString": "TIdentString",
+              "helper:preserve": "(THelper false)", "helper:parse": "(THelper true)",
               "Callable": "TCallable", "syn::Meta": "TMeta", "PathList": "TPathList", "Flag": "TFlag",
               "Vec<syn::WherePredicate>": "TWherePreds",
               "syn::ExprArray": '(TExprType GExprArray "array")', "syn::ExprPath": '(TExprType GExprPath "path")',
